@@ -585,9 +585,9 @@ impl SequenceMatcher {
                 // This maintains the two-pointer invariant (b_ptr points to the last B that could match)
                 b_ptr = latest_b_ptr;
             } else {
-                // B is not before A (ts_b >= ts_a), advance b_ptr to find earlier B events
-                // Since indices are sorted by timestamp, we need to advance b_ptr
-                b_ptr += 1;
+                // B is not before A (ts_b >= ts_a). Indices are sorted by timestamp, so no B
+                // precedes this A; a later A may still be preceded by this B, so advance a_ptr
+                a_ptr += 1;
             }
         }
 
